@@ -134,6 +134,8 @@ func main() {
 		f    func(*pkg, string) ([]byte, error)
 	}{
 		{"StepKinds.lean", genStepKinds},
+		{"MatrixRE.lean", genMatrixRE},
+		{"Jwk.lean", genJwk},
 	}
 	for _, g := range gens {
 		b, err := g.f(root, *repo)
